@@ -259,7 +259,7 @@ def polymorph_response(response, poly, bqm,
 
     if discard_unsatisfied:
         samples_to_keep = list(map(bool, list(penalty_vector)))
-        penalty_vector = np.array([True] * np.sum(samples_to_keep))
+        penalty_vector = np.array([True] * int(np.sum(samples_to_keep)))
     else:
         samples_to_keep = list(map(bool, [1] * len(record.sample)))
 
